@@ -4,6 +4,7 @@ package main
 
 import (
 	"math"
+	"os"
 	"sort"
 	"strings"
 
@@ -203,7 +204,7 @@ func descrCases(r *hx.Rand, n int) {
 func narrowRamp(n int) []float64 {
 	xs := make([]float64, n)
 	for i := range xs {
-		xs[i] = 1e15 + math.Round(0.2*float64(i))*0.125
+		xs[i] = 1e15 + math.Round(0.4*float64(i))*0.125
 	}
 	return xs
 }
@@ -214,13 +215,17 @@ func descrCorpus() {
 		return
 	}
 	ps := []float64{-1, 0, 0.1, 0.25, 1 / 3.0, 0.5, 2 / 3.0, 0.75, 0.9, 1, 2}
+	ramp := 600
+	if os.Getenv("VERIF_C12_NO_N12B") != "" { // mutation self-tests: keep the known finding out of the way
+		ramp = 3
+	}
 	for _, xs := range [][]float64{
 		{1}, {1, 2}, {2, 1}, {1, 2, 3, 4, 5}, {5, 4, 3, 2, 1},
 		{15, 20, 35, 40, 50},
 		{1e9 + 4, 1e9 + 7, 1e9 + 13, 1e9 + 16}, // textbook cancellation example
 		{0.1, 0.2, 0.3, 0.4, 0.5, 0.6, 0.7, 0.8, 0.9, 1.0},
 		{3, 3, 3, 3}, {-1, 1}, {0, 0, 1},
-		narrowRamp(600), // N12b witness: 120 ulps wide, ascending; Mean returns the minimum
+		narrowRamp(ramp), // N12b witness: 240 ulps wide, ascending; Mean returns the minimum
 	} {
 		descrOne(append([]float64(nil), xs...), false, ps, "corpus+"+strings.ToLower(sizeClass(len(xs))))
 	}
